@@ -469,7 +469,21 @@ pub fn random_run<W: Write>(tr: &mut Trace<W>, cfg: Cfg, prof: &Profile, seed: u
             15..=20 => ("Insert", json!({"e": e, "k": k})),
             21..=25 => ("Remove", json!({"e": e, "k": k})),
             26..=40 => ("Mutate", json!({"e": e, "k": k})),
-            41..=46 if prof.vis => ("SetVis", json!({"c": c, "e": e, "v": rng.chance(1, 2)})),
+            41..=46 if prof.vis => {
+                let v = rng.chance(1, 2);
+                if rng.chance(1, 3) {
+                    // repeated and mutually cancelling calls inside one tick window
+                    tr.step(&mut sim, "SetVis", json!({"c": c, "e": e, "v": v}));
+                    if rng.chance(1, 3) {
+                        tr.step(&mut sim, "SrvFrame", json!({"tick": false, "dt": 0}));
+                    }
+                    tr.step(&mut sim, "SetVis", json!({"c": c, "e": e, "v": !v}));
+                    if rng.chance(1, 2) {
+                        continue;
+                    }
+                }
+                ("SetVis", json!({"c": c, "e": e, "v": v}))
+            }
             47..=50 if prof.rel => {
                 let p = rng.pick(&ents).clone();
                 if rng.chance(2, 3) { ("Relate", json!({"e": e, "p": p})) } else { ("Unrelate", json!({"e": e})) }
